@@ -32,6 +32,9 @@ def slice_of(obj):
     """coarse slice tag of a surface declaration, for sampling and evidence."""
     src = obj["src"]
     kinds = [b["bk"] for b in src["blocks"]]
+    if src["tparams"] and (len(src["tparams"]) > 1 or ":" in src["tparams"][0] or src["tparams"][0].startswith("'")
+                           or "sanitize" in kinds or "new_unchecked" in kinds):
+        return "L"
     if src["name"] != "Nt" or src["tparams"]:
         return "N"
     if src["fieldvis"] or src["outer"] or src["shape"] != "tuple":
@@ -153,9 +156,13 @@ def check_C08():
     chosen = []
     for sl, ids in sorted(by_slice.items()):
         ids = sorted(ids)
-        cap = 700 if sl == "T" else None
+        cap = 700 if sl == "T" else (450 if sl == "L" else None)
         if T == "quick" and cap and len(ids) > cap:
-            ids = rng.sample(ids, cap)
+            # shapes of repaired defects are always replayed (Arbitrary / Into on bounded generics: 6f20365, c0c4844)
+            keep = [k for k in ids if sl == "L" and rows[k]["class"] == "accept"
+                    and any(t in ("Arbitrary", "Into") for b in rows[k]["src"]["blocks"] for t in b["der"])]
+            rest = [k for k in ids if k not in set(keep)]
+            ids = keep + rng.sample(rest, max(0, cap - len(keep)))
         chosen.extend(ids)
     sel = {k: rows[k] for k in chosen}
     verdicts = build_verdicts("c08", sel)
